@@ -213,6 +213,7 @@ int iauth_routing(const struct iauth_request *req, char routing[], size_t routin
 struct iauth_request *iauth_validate_request(const char routing[])
 {
     struct iauth_request *req;
+    char expect[ROUTINGLEN];
     char *sep;
     unsigned int serial;
     int id;
@@ -228,6 +229,12 @@ struct iauth_request *iauth_validate_request(const char routing[])
     /* Look up the client and check that it is the correct one. */
     req = set_find(iauth_reqs, &id);
     if (!req || serial != req->serial)
+        return NULL;
+
+    /* strtol() is lenient (signs, "0x", values that wrap around): only
+     * the tag we sent out names this request.
+     */
+    if (iauth_routing(req, expect, sizeof(expect)) || strcmp(routing, expect))
         return NULL;
 
     return req;
